@@ -41,6 +41,7 @@ func c28(c *vc.Ctx) {
 	argLen := vc.Pick(c, 2, 3)
 	optLen := vc.Pick(c, 2, 3)
 	parLen := vc.Pick(c, 3, 4)
+	testLen := vc.Pick(c, 4, 5)
 	wallMS := vc.Pick(c, 400, 1500)
 	steps := vc.Pick(c, 1500, 4000)
 	menu := c28Stateful(!c.Quick())
@@ -55,7 +56,7 @@ func c28(c *vc.Ctx) {
 	parAlpha := []string{"", "-", "+", "--", "-e", "+e", "-o", "+o", "errexit", "nosuch", "-eu", "-z", "a", "-x"}
 
 	c.Rule = "(1) " + space.describe() + fmt.Sprintf(" + the string literals of interp/interp_test.go; each distinct syntax tree (dump without positions; layout deviations and variants that give the same tree are run once) is run by a fresh Runner under %d variable environments (x,y,a unset / strings + positional parameters / indexed arrays / associative arrays); ", c28NumModes) +
-		fmt.Sprintf("(2) each of the %d builtins (string literals of interp.IsBuiltin in the working tree + declaration keywords) with ALL argument vectors of length <=%d (one less for the builtins that only print 'unsupported builtin') over the common alphabet %q plus per-builtin symbols (c28_builtins.go), in 3 setups (top level without parameters; after `set -- p -ab q` with variables; inside a for loop inside a function), declaration keywords both with unquoted and quoted arguments, standard input is a short regular file (read, mapfile, readarray also with a strings.Reader, an empty reader and no stdin), also behind `builtin`/`command` with <=%d arguments; ALL ordered pairs of the %d calls of the stateful-builtin menu (getopts, shift, set, OPTIND, pushd/popd/cd, trap, read, mapfile, declare/local, unset, wait, return/break/continue, functions, alias, source/eval) in the setups %v", len(names), argLen, c28Common, argLen-1, len(menu), pairSetups) +
+		fmt.Sprintf("(2) each of the %d builtins (string literals of interp.IsBuiltin in the working tree + declaration keywords) with ALL argument vectors of length <=%d (one less for the builtins that only print 'unsupported builtin') over the common alphabet %q plus per-builtin symbols (c28_builtins.go), in 3 setups (top level without parameters; after `set -- p -ab q` with variables; inside a for loop inside a function), declaration keywords both with unquoted and quoted arguments, standard input is a short regular file (read, mapfile, readarray also with a strings.Reader, an empty reader and no stdin), also behind `builtin`/`command` with <=%d arguments; `test` and `[ ... ]` additionally with ALL operand vectors of length <=%d over %q; ALL ordered pairs of the %d calls of the stateful-builtin menu (getopts, shift, set, OPTIND, pushd/popd/cd, trap, read, mapfile, declare/local, unset, wait, return/break/continue, functions, alias, source/eval) in the setups %v", len(names), argLen, c28Common, argLen-1, testLen, c28TestAlpha, len(menu), pairSetups) +
 		func() string {
 			if triples {
 				return fmt.Sprintf(", and ALL ordered triples of the %d core calls", len(core))
@@ -153,6 +154,14 @@ func c28(c *vc.Ctx) {
 				}
 			})
 		}
+		// part 2a': test expressions need more operands than other builtins
+		enum.Seqs(c28TestAlpha, testLen, func(v []string) {
+			if len(v) <= argLen {
+				return // covered above
+			}
+			emit(c28Case{Part: "blt", Src: c28Wrap(1, c28Call("test", v, 0)), Stdin: 3, WallMS: wallMS, Steps: steps})
+			emit(c28Case{Part: "blt", Src: c28Wrap(1, c28Call("[", append(append([]string{}, v...), "]"), 0)), Stdin: 3, WallMS: wallMS, Steps: steps})
+		})
 		// part 2b: pairs (and triples) of consecutive calls
 		for _, x := range menu {
 			for _, y := range menu {
@@ -254,6 +263,7 @@ func c28Judge(c *vc.Ctx, t c28Case, rep c28Reply) *vc.Fail {
 	switch {
 	case rep.Hang:
 		c.Count("skipped_worker_hung_killed", 1)
+		fmt.Fprintf(os.Stderr, "C28: worker did not answer and was killed: %s\n", c28KeyOf(t))
 		return nil
 	case rep.ParseErr:
 		c.Count("skipped_noparse", 1)
